@@ -6,12 +6,14 @@
      upd_step_exec / _coll    the three outcomes of [upd_step] are exactly the transitions the mutex holder has in
                               the topping-up state (send / full / fall out of the loop and unlock);
      waitone_entry            waitOne's first test and count-down are the guards of [EvAwait] / [EvEmpty];
+     executor_cycle           the hook events of executor's deferred function, in program order, take the task's
+                              stage ERun -> ELk -> ETop/EOut -> EDone, each accepted in that position only;
      collector_cycle          the hook events on waitOne's straight path, in program order, are the events that
                               take the collector once round CIdle -> CWait -> CGot -> CTop/CFull -> CIdle, and the
                               checker accepts each of them in that position only;
      submit_pre_first         in submit no task is started before the last state pre-handler has run;
      discipline_*             the hook's log-order discipline holds of the straight-line parts. *)
-From Eino Require Import Base.Util Model.TaskMgr Model.TaskMgrCode.
+From Eino Require Import Base.Util Model.TaskMgr Model.TaskMgrCode Proofs.TaskMgr.
 
 Lemma upd_model_is_step : forall l d, upd_of model_updateChan l d = upd_step l d.
 Proof. intros [|x xs] [y|]; reflexivity. Qed.
@@ -105,6 +107,39 @@ Definition exec_cycle : list tk :=
 
 Lemma exec_cycle_is : exec_cycle = [KLockE; KPush; KUnlockE].
 Proof. reflexivity. Qed.
+
+(* the executor goes through lock, push, unlock in the order of the deferred function's text *)
+Definition spos (o : option (stage * bres)) : option nat :=
+  match o with
+  | Some (ERun, _) => Some 0 | Some (ELk, _) => Some 1 | Some (ETop, _) | Some (EOut, _) => Some 2
+  | Some (EDone, _) => Some 3 | None => None
+  end.
+
+Definition ev_task (e : ev) : option task :=
+  match e with EvLockE t | EvPush t _ | EvUnlockE t => Some t | _ => None end.
+
+Lemma executor_cycle : forall s e s' i t,
+  exec_ev s e = Some s' -> ev_task e = Some t -> nth_error exec_cycle i = Some (tk_of e) ->
+  spos (get_pc t (epcs s)) = Some i /\ spos (get_pc t (epcs s')) = Some (S i).
+Proof.
+  intros s e s' i t H Ht Hi. rewrite exec_cycle_is in Hi.
+  destruct i as [|[|[|i]]]; cbn in Hi; try (destruct i; discriminate Hi);
+    injection Hi as Hk; destruct e; try discriminate Hk; clear Hk;
+    cbn in Ht; injection Ht as <-; unfold exec_ev in H.
+  - destruct (get_pc t0 (epcs s)) as [[[] b]|] eqn:Ep; try discriminate H.
+    destruct (lock s); try discriminate H. injection H as <-. cbn [epcs].
+    rewrite (get_pc_set t0 t0 ELk ERun b _ Ep), N.eqb_refl. split; reflexivity.
+  - destruct (lock s) as [|h|]; try discriminate H.
+    destruct (get_pc t0 (epcs s)) as [[[] b]|] eqn:Ep; try discriminate H.
+    destruct (N.eqb t0 h && Bool.eqb e (err_of b)); try discriminate H. injection H as <-. cbn [epcs].
+    rewrite (get_pc_set t0 t0 ETop ELk b _ Ep), N.eqb_refl. split; reflexivity.
+  - destruct (lock s) as [|h|]; try discriminate H.
+    destruct (get_pc t0 (epcs s)) as [[p b]|] eqn:Ep; try discriminate H.
+    destruct (N.eqb t0 h && match p with ETop => is_nil (l s) | EOut => true | _ => false end) eqn:Eg; try discriminate H.
+    injection H as <-. cbn [epcs].
+    rewrite (get_pc_set t0 t0 EDone p b _ Ep), N.eqb_refl.
+    destruct p; try (rewrite Bool.andb_false_r in Eg; discriminate Eg); split; reflexivity.
+Qed.
 
 (* ---- structural facts of the programs ---- *)
 
